@@ -114,7 +114,9 @@ QuerySet ==
          { FC(ECmp("=~", At1(s_), OReLit(ReAB, FALSE))), FC(ECmp("=~", At1(s_), OReLit(ReAB, TRUE))), FC(ECmp("=~", At1(s_), OReLit(ReAdot, FALSE))),
            FC(ECmp("=~", At1(s_), OReLit(Chr(97), FALSE))), FC(ECmp("=~", At1(s_), OReLit(Chr(97), TRUE))), FC(ECmp("=~", Self, OReLit(ReAB, FALSE))),
            FC(ENot(ECmp("=~", At1(s_), OReLit(ReAB, TRUE)))), FC(ECmp("=~", At1(a_), OReLit(AnyChar, FALSE))), FC(ECmp("=~", At1(s_), OReLit(Cat(Chr(47), Chr(97)), FALSE))),
-           FC(EOr(ECmp("=~", At1(s_), OReLit(Chr(98), TRUE)), ECmp("=~", At1(a_), OReLit(Chr(97), FALSE)))) }
+           FC(EOr(ECmp("=~", At1(s_), OReLit(Chr(98), TRUE)), ECmp("=~", At1(a_), OReLit(Chr(97), FALSE)))),
+           \* a full match is not "the first alternative that matches at the start, if it happens to end at the end": a|ab on "ab"
+           FC(ECmp("=~", At1(s_), OReLit(Alt(Chr(97), ReAB), FALSE))), FC(ECmp("=~", At1(s_), OReLit(Alt(Chr(97), ReAB), TRUE))) }
     [] Universe = "undef" ->
          { FC(ECmp("==", At1(a_), OUndef)), FC(ECmp("!=", At1(a_), OUndef)), FC(ECmp("==", OUndef, At1(a_))), FC(ECmp("!=", OUndef, At1(s_))),
            FC(EAnd(ECmp("==", At1(a_), OUndef), ECmp("!=", At1(b_), OUndef))), FC(ENot(ECmp("==", At1(b_), OUndef))),
